@@ -584,7 +584,7 @@ fn main() {
         }
         let r2 = Rng::new(rng.next());
         forked(&tpath, seg, |tr| {
-            let mut sg = Seg { seg, cfg, mode: mode.clone(), proot: work.join("P"), hroot: work.join("H"), ops: None, len, rng: r2, gentle: (k / 2) % 2 == 0, tr, src: "rand".into() };
+            let mut sg = Seg { seg, cfg, mode: mode.clone(), proot: work.join("P"), hroot: work.join("H"), ops: None, len, rng: r2, gentle: mode == "c18" && (k / 2) % 2 == 0, tr, src: "rand".into() };
             run_segment(&mut sg, None);
         });
         seg += 1;
